@@ -87,4 +87,23 @@ pub open spec fn pidx(w: int, x: int, y: int) -> int { y * w + x }
 pub open spec fn covered(tiles: Seq<(Tile<2>, Image)>, n: int, t: int, x: int, y: int) -> bool {
     exists|k: int| 0 <= k < n && (#[trigger] tiles[k]).0.corner.x == x - x % t && tiles[k].0.corner.y == y - y % t
 }
+// ---------- Worker::new / Scratch::new
+/// nalgebra: the 3x3 screen-to-model matrix widened to 4x4 with z preserved (not under contract: the matrix is only handed on to the evaluators)
+#[verifier::external_body]
+pub struct Matrix4x3 { _p: u8 }
+impl Matrix3<f32> { #[verifier::external_body] pub fn insert_row(self, i: usize, v: f32) -> Matrix4x3 { unimplemented!() } }
+impl Matrix4x3 { #[verifier::external_body] pub fn insert_column(self, i: usize, v: f32) -> Matrix4<f32> { unimplemented!() } }
+impl Matrix4<f32> { /** R-matset: `m[(2, 2)] = v` */ #[verifier::external_body] pub fn set22(&mut self, v: f32) { unimplemented!() } }
+impl RenderConfig { #[verifier::external_body] pub fn mat(&self) -> Matrix3<f32> { unimplemented!() } }
+impl<'a> TileSizesRef<'a> {
+    /// TileSizesRef::last (proved in unit tiles)
+    #[verifier::external_body]
+    pub fn last(&self) -> (r: usize) requires self.0@.len() >= 1 ensures r == self.0@[self.0@.len() - 1] { unimplemented!() }
+}
+/// R-vecmacro: `vec![v; n]`
+#[verifier::external_body]
+pub fn vec_f32(v: f32, n: usize) -> (r: Vec<f32>) ensures r@.len() == n { vec![v; n] }
+/// R-pow: `n.pow(2)`
+pub fn pow2(n: usize) -> (r: usize) requires n * n <= usize::MAX ensures r == n * n { n * n }
+impl Default for Image { #[verifier::external_body] fn default() -> Self { unimplemented!() } }
 pub fn max_u32(a: u32, b: u32) -> (r: u32) ensures r == (if a >= b { a } else { b }) { if a >= b { a } else { b } }
